@@ -91,6 +91,10 @@ def explore_model(ctx, om, sc, C, py_cap, dist):
     for T in Ts:
         out, st = fresh[T]
         dist["levels_run"] += 1
+        if st.startswith("error"):
+            vio.append({"sig": "C10:next-guess-raises", "what": "level %d: next_guess raised %s after %d guesses" % (T, st[6:], len(out)),
+                        "replay": {"om": om, "T": T}})
+            continue
         if st != "done":
             dist["levels_cut_" + st] += 1
             want = buckets.get(T, Counter())
@@ -147,7 +151,8 @@ def explore_model(ctx, om, sc, C, py_cap, dist):
             info["nontrivial"].add(T)
             dist["levels_with_memo_hits"] += 1
         hist.append(T)
-        shared_levels.append((T, out, st == "done"))
+        if not st.startswith("error"):
+            shared_levels.append((T, out, st == "done"))
     info["levels"] = Ts
     entries = omen_gen.optimizer_entries(co.opt)
     dist["optimizer_entries"] += len(entries)
@@ -169,8 +174,7 @@ def coq_case(case, coq_cap, model_cap, dist):
         total += len(out) + 5
         lv.append("((%d)%%Z, %s, %s)" % (T, omen_gen.cstrs(out), common.cbool(complete)))
     skipped = total >= model_cap
-    check_cache = (not case["raised"]) and (not skipped) and case["entries"] is not None and len(case["entries"]) <= 400 \
-        and all(c for _, _, c in case["levels"])
+    check_cache = (not case["raised"]) and (not skipped) and case["entries"] is not None and len(case["entries"]) <= 1200
     # the cache comparison is only meaningful when Coq replays every call of the history
     if any(len(o) > coq_cap for _, o, _ in case["levels"]):
         check_cache = False
